@@ -192,7 +192,7 @@ func RunLog(args []string) int {
 	var sample interface{}
 	for _, pw := range pws[:*np] {
 		for _, k := range ks {
-			if strings.Contains(baseline[k.name], pw) {
+			if strings.Contains(baseline[k.name], pw) || strings.Contains("-> PASS **************", pw) {
 				skipped++ // the password is a substring of what this session logs anyway
 				continue
 			}
